@@ -1941,8 +1941,12 @@ void is_list_loose(token * list) {
 			walker = walker->next;
 		}
 
-		if (walker->child && walker->child->next && (walker->child->next->next != NULL)) {
-			loose = true;
+		// The last item also holds the blank line(s) that end the list -- only a
+		// blank line *inside* the item (followed by more content) makes it loose
+		for (token * w = walker->child; w && w->next; w = w->next) {
+			if ((w->type == BLOCK_EMPTY) && (w != walker->child)) {
+				loose = true;
+			}
 		}
 	}
 
